@@ -3,11 +3,13 @@
 package vk
 
 import (
+	"bytes"
 	"crypto/sha256"
 	"encoding/json"
 	"flag"
 	"fmt"
 	"os"
+	"os/exec"
 	"path/filepath"
 	"runtime"
 	"sort"
@@ -215,8 +217,68 @@ func loadFindings() []Finding {
 	return f.Findings
 }
 
+// arch386 runs the same harness once more as a 32-bit build (GOARCH=386, built by ./check for the
+// harnesses that carry an ARCH386 marker): the properties are about bytes and values, not about the
+// word size of the machine the library happens to be compiled for, and 32-bit ARM/x86 are real
+// targets of the library. The child runs the same tier, writes its violations to a file instead of
+// evidence, and the parent imports them.
+func (r *Run) arch386() {
+	bin := os.Getenv("VERIF_386_BIN")
+	if bin == "" || r.Worker != "" || r.Replay != "" || os.Getenv("VERIF_IS_386") != "" {
+		return
+	}
+	if strings.TrimSpace(os.Getenv("VERIF_386_WHEN")) == "thorough" && r.Tier != "thorough" {
+		return
+	}
+	out := filepath.Join(os.Getenv("VERIF_WORK"), "arch386."+r.ID+".json")
+	os.Remove(out)
+	cmd := exec.Command(bin, "--tier", r.Tier)
+	cmd.Env = append(os.Environ(), "VERIF_IS_386=1", "VERIF_386_OUT="+out)
+	var stderr bytes.Buffer
+	cmd.Stderr = &stderr
+	start := time.Now()
+	err := cmd.Run()
+	var res struct {
+		Evaluations int64
+		Violations  []WorkerViolation
+		Machinery   []string
+	}
+	b, rerr := os.ReadFile(out)
+	if rerr != nil || json.Unmarshal(b, &res) != nil {
+		tail := stderr.String()
+		if len(tail) > 1500 {
+			tail = tail[len(tail)-1500:]
+		}
+		r.Machinery("the GOARCH=386 run of this harness failed (%v): %s", err, tail)
+		return
+	}
+	for i := range res.Violations {
+		if res.Violations[i].What != "" {
+			res.Violations[i].What = "[GOARCH=386 build of the library] " + res.Violations[i].What
+		}
+	}
+	r.Import(res.Violations)
+	for _, m := range res.Machinery {
+		r.Machinery("GOARCH=386 run: %s", m)
+	}
+	r.Set("arch_386_evaluations", res.Evaluations)
+	r.Set("arch_386_wall_s", time.Since(start).Seconds())
+	r.Assume("the whole enumeration of this tier is repeated on a 32-bit (GOARCH=386) build of library and harness; its cases are not added to evaluations / distinct_nontrivial")
+}
+
 // Finish writes the evidence file, prints KNOWN-FINDING / VIOLATION lines and exits.
 func (r *Run) Finish() {
+	if out := os.Getenv("VERIF_386_OUT"); out != "" && r.Worker == "" && r.Replay == "" {
+		// this IS the 32-bit run: hand the findings to the parent and leave
+		r.mu.Lock()
+		res := map[string]any{"Evaluations": r.Evaluations.Load(), "Machinery": r.machinery}
+		r.mu.Unlock()
+		res["Violations"] = r.Export()
+		b, _ := json.Marshal(res)
+		os.WriteFile(out, b, 0o644)
+		os.Exit(0)
+	}
+	r.arch386()
 	r.mu.Lock()
 	defer r.mu.Unlock()
 
